@@ -65,7 +65,7 @@ def gen(rng):
                 # 246-255 bytes of multi-byte characters: '<name>.trashinfo' is too long for the kernel, the name gets shortened
                 nm = rng.choice(['я' * 122, '日' * 83, 'é' * 121, '😀' * 61]) + 'x' * rng.randint(0, 4) + str(i)
             p = wd + '/' + nm
-            G.make_entry(rng, p, rng.choice(['file', 'dir', 'link_dangling', 'empty']), steps, aux)
+            G.make_entry(rng, p, rng.choice(['file', 'dir', 'link_dangling', 'empty', 'link_file', 'link_dir']), steps, aux)
         elif cls == 'emptystr':
             p = ''
             if '' in args:
@@ -107,6 +107,15 @@ def gen(rng):
     cwd = rng.choice(['/', home])
     opts = []
     stdin = ''
+    if L['vols'] and rng.random() < 0.1 and not deeptrash:
+        # the trash directories of the volumes cannot be used and the home fallback is enabled (twice): arguments on those volumes
+        # travel to the home trash by copy + delete - a symlink argument as the link it is
+        for v_ in L['vols']:
+            for t_ in (v_ + '/.Trash', v_ + '/.Trash-%d' % uid):
+                steps.append(['rm', t_])
+                steps.append(['f', t_, 'not a directory', 0o600])
+        opts.append('--home-fallback')
+        env['TRASH_ENABLE_HOME_FALLBACK'] = '1'
     if rng.random() < 0.25:
         opts.append('-f')
     elif rng.random() < 0.25:
